@@ -119,13 +119,13 @@ pub mod proofs {
     #[kani::proof]
     #[kani::stub(alloc::alloc::alloc, c03_alloc)]
     #[kani::stub(alloc::alloc::dealloc_nonnull, c03_dealloc)]
-    #[kani::unwind(6)]
+    #[kani::stub(core::fmt::write, crate::common::no_fmt_write)]
+    #[kani::unwind(8)]
     pub fn c03_seq_iterator_action() {
         let s = crate::c09::mk_delivery(false);
         let fill: u32 = kani::any();
         kani::assume(fill <= libc::vshim::net::PAIR_CAP);
         unsafe { K::fds[5].fill = fill };
-        deliver(libc::SIGHUP);
         deliver(libc::SIGHUP);
         seq_verdict();
         kani::cover!(fill == libc::vshim::net::PAIR_CAP, "self-pipe completely full");
